@@ -22,7 +22,7 @@ ASSUMPTIONS = [
 ]
 STEPS = ["add", "del-member", "del-nonmember", "add-twice", "objective", "solve"]
 REQUIRED_COUNTERS = ["step." + s for s in STEPS] + [
-    "check.variables", "check.lists", "check.copies", "check.solve-vs-fresh", "solve.optimal",
+    "check.variables", "check.lists", "check.copies", "check.solve-vs-fresh", "check.values-after-solve", "solve.optimal",
     "mech.del-last-user-of-variable", "mech.del-shared-variable", "mech.del-multi-variable-constraint",
     "mech.objective-only-variable", "mech.constant-only-constraint", "mech.objective-variable-also-constrained"]
 
@@ -132,6 +132,12 @@ def run(ctx):
                     put(0 * v + 1.0 <= 2.0, "0*v%d + 1 <= 2" % i, ["const"])
                 else:
                     put(0 * v[0] + 1.0 == 1.0, "0*v%d[0] + 1 == 1" % i, ["const", "eq"])
+        if rng.random() < 0.4:
+            # one constraint that contradicts the box of its variable: histories that contain it (and the box) are
+            # primal infeasible, so a later solve has to REPLACE the values of an earlier optimal solve by None
+            i = rng.randrange(nv)
+            put(vs[i][0] <= -R - 5.0, "v%d[0] <= -15" % i, ["contra"])
+            ctx.count("pool.contradiction")
         for v in vs:
             v.value = None
         # objectives: affine on two variables, PWL, a scalar variable / constant, one on the last variable only
@@ -306,9 +312,19 @@ def run(ctx):
                     p.objective = objs[j][0]; model.obj = objs[j][0]
                 else:
                     hist.append("p.solve()")
-                    for v in vs:
-                        v.value = None
+                    # the values left by earlier solves of this history stay in place: solve() has to overwrite them
+                    # (with the new solution, or with None when there is none)
+                    stale_ = [v for v in vs if v.value is not None]
                     a = outcome(p)
+                    if a[0] == "status" and a[1] in ("optimal", "primal infeasible"):
+                        ctx.count("check.values-after-solve")
+                        mine = [v for v in p.variables()]
+                        if a[1] == "primal infeasible":
+                            c.require(all(v.value is None for v in mine), "solve:primal-infeasible-but-variable-keeps-an-old-value",
+                                      "status 'primal infeasible' but %r still have values (%d had values before the call)" %
+                                      ([v.name for v in mine if v.value is not None], len(stale_)))
+                        else:
+                            c.require(all(v.value is not None for v in mine), "solve:optimal-but-variable-None", "optimal, value None")
                     for v in vs:
                         v.value = None
                     try:
